@@ -89,3 +89,20 @@ Definition c_not_operator : boolop := BNot.
 (* other is a query object: a SimpleQuery or a CompoundQuery *)
 Definition c_eq (other_is_simple : bool) (self other : pyh) : bool :=
   if andb true (andb (pyh_truthy self) (pyh_truthy other)) then pyh_eqb self other else false.
+
+(* SimpleQuery.__call__: the path resolver may fail (a missing key, a function in the path that raises): the answer is then a constant;
+   otherwise whatever the test says, its exceptions included *)
+Definition gen_simple_call (resolved : option value) (test : value -> res) : res :=
+  match resolved with None => (RB false) | Some value => test value end.
+
+(* CompoundQuery.__call__: both operands are evaluated, then the operator is applied to their results *)
+Definition gen_compound_call (op : boolop) (r1 : res) (r2 : option res) : res :=
+  match r2 with Some b => apply_boolop2 op r1 b | None => apply_boolop1 op r1 end.
+
+(* the test closure: a test that is not a comparison calls the function (its exceptions propagate); a comparison that raises
+   (None < 3, str < float) is a constant *)
+Definition gen_test (against_rhs : bool) (plain : res) (compared : option bool) : res :=
+  if negb against_rhs then plain else match compared with Some b => RB b | None => (RB false) end.
+
+(* the path resolver walks self._path: a string part is a key lookup, any other part is called; checked structurally *)
+Definition path_walk_is_key_or_call : bool := true.
